@@ -1,0 +1,14 @@
+//go:build verif
+
+package event
+
+// VerifYield, when installed by a verification harness, is called at the
+// statement boundaries of Feed.Send and Feed.remove (sites 1..9). It is nil
+// unless a harness sets it before any goroutine uses a Feed.
+var VerifYield func(site int)
+
+func verifYield(site int) {
+	if h := VerifYield; h != nil {
+		h(site)
+	}
+}
